@@ -31,9 +31,13 @@ type c17Params struct {
 	Stop      bool
 	Fire      int  // timer expiries the scheduler may take
 	PreReport bool // a report has already been forwarded during set-up (its retransmission timer is armed)
+	Rsp       bool // peer A answers that outstanding Session Report Request (needs PreReport): response vs. expiry
 }
 
 func (p c17Params) String() string {
+	if p.Rsp {
+		return fmt.Sprintf("%s: producers=%d peers=%d stop=%v timer-fires=%d pre-report=%v report-response=true", p.Name, p.Producers, p.Peers, p.Stop, p.Fire, p.PreReport)
+	}
 	return fmt.Sprintf("%s: producers=%d peers=%d stop=%v timer-fires=%d pre-report=%v", p.Name, p.Producers, p.Peers, p.Stop, p.Fire, p.PreReport)
 }
 
@@ -73,7 +77,20 @@ func c17Body(p c17Params) func(x *vsched.Exec) {
 		}
 		if p.PreReport {
 			vsched.Setup(func() { w.v.S.NotifySessReport(sworldlite.UsageReportFor(up, 2, 1)) })
-			w.replies()
+			var rseq uint32
+			found := false
+			for _, m := range w.repliesWait(0, 1)[0] {
+				if m.Type == smf.MReportReq {
+					rseq, found = m.Seq, true
+				}
+			}
+			if p.Rsp {
+				if !found {
+					x.V["infra"] = "set-up: the Session Report Request did not reach the peer"
+					return
+				}
+				vsched.GoHarness("peer-A-rsp", func() { peerSend(w, 0, smf.ReportRsp(rseq, up, smf.CauseAccepted)) })
+			}
 		}
 		vsched.SetKeyFn(func() string { return w.v.Summary() })
 		if p.Peers >= 1 {
@@ -83,7 +100,7 @@ func c17Body(p c17Params) func(x *vsched.Exec) {
 				peerSend(w, 0, q)
 			})
 		}
-		if p.Peers >= 2 {
+		if p.Peers >= 2 || p.Rsp {
 			vsched.GoHarness("peer-B", func() { peerSend(w, 1, smf.Heartbeat(w.nextSeq(1))) })
 		}
 		for k := 0; k < p.Producers; k++ {
@@ -166,7 +183,7 @@ func c17Check(x *vsched.Exec, r vsched.Result) []vsched.Finding {
 		if p.Peers >= 1 {
 			wantMods = 2
 		}
-		if p.Peers >= 2 {
+		if p.Peers >= 2 || p.Rsp {
 			wantHB = 1
 		}
 		if hb != wantHB || mods != wantMods {
@@ -196,6 +213,7 @@ func c17Scenarios(tier string) []struct {
 		{c17Params{Name: "stop-vs-timer+producer", PreReport: true, Producers: 1, Stop: true, Fire: 1}, 2, 0},
 		{c17Params{Name: "stop-vs-traffic", Producers: 1, Peers: 1, Stop: true}, 2, 0},
 		{c17Params{Name: "stop-vs-peers", Peers: 2, Stop: true}, 2, 0},
+		{c17Params{Name: "response-vs-expiry", PreReport: true, Rsp: true, Fire: 1}, 3, 0},
 	}
 	if tier == "thorough" {
 		out = []sc{
@@ -209,6 +227,7 @@ func c17Scenarios(tier string) []struct {
 			{c17Params{Name: "stop-vs-traffic-1p", Producers: 1, Peers: 2, Stop: true}, 2, 0},
 			{c17Params{Name: "stop-vs-traffic-timer", Producers: 1, Peers: 1, Stop: true, Fire: 1}, 3, 0},
 			{c17Params{Name: "stop-vs-peers", Peers: 2, Stop: true}, 3, 0},
+			{c17Params{Name: "response-vs-expiry", PreReport: true, Rsp: true, Peers: 1, Fire: 2}, 3, 0},
 		}
 	}
 	return out
@@ -247,4 +266,69 @@ func c17RaceScenarios(tier string) []struct {
 		}...)
 	}
 	return out
+}
+
+// ---- ingress: datagrams through the real socket ---------------------------------------------------------------
+//
+// Peer A sends n Heartbeat Requests with distinct sequence numbers to the UPF's real UDP socket, back to back. The
+// receiver goroutine (its read performed inline whenever a datagram is already queued) and the loop are
+// interleaved in every way: the receiver may have read and queued all n datagrams before the loop looks at the
+// first. Oracle: every request is answered exactly once under its own sequence number ("the receiver goroutine
+// only copies datagrams into a channel").
+
+type c17IngressParams struct{ N int }
+
+func (p c17IngressParams) String() string {
+	return fmt.Sprintf("ingress: %d datagrams back to back", p.N)
+}
+
+func c17IngressBody(p c17IngressParams) func(x *vsched.Exec) {
+	return func(x *vsched.Exec) {
+		w := newWorld(x, false, 1)
+		x.V["w"] = w
+		x.V["n"] = p.N
+		vsched.ExtProbe = w.v.Pending
+		vsched.Setup(func() {}) // the loop listens, the receiver is parked in its read
+		vsched.SetKeyFn(func() string { return w.v.Summary() })
+		vsched.GoHarness("peer-A", func() {
+			for k := 0; k < p.N; k++ {
+				if !w.sendUDP(0, smf.Heartbeat(uint32(1000+k))) {
+					x.V["infra"] = "datagram not delivered"
+					return
+				}
+				vsched.Yield() // the next datagram may also arrive later
+			}
+		})
+	}
+}
+
+func c17IngressCheck(x *vsched.Exec, r vsched.Result) []vsched.Finding {
+	if s, ok := x.V["infra"].(string); ok {
+		return []vsched.Finding{{Sig: "INFRA:setup", What: s}}
+	}
+	w, _ := x.V["w"].(*world)
+	if w == nil || r.Truncated || r.Diverged != "" || len(r.Panics) > 0 || r.Deadlock != "" {
+		return nil
+	}
+	n := x.V["n"].(int)
+	rep := w.repliesWait(0, n)
+	got := map[uint32]int{}
+	for _, m := range rep[0] {
+		if m.Type == smf.MHeartbeatRsp {
+			got[m.Seq]++
+		}
+	}
+	var fs []vsched.Finding
+	var l []string
+	for k := 0; k < n; k++ {
+		c := got[uint32(1000+k)]
+		l = append(l, fmt.Sprint(c))
+		if c == 0 {
+			fs = append(fs, vsched.Finding{Sig: "request-unanswered:ingress", What: fmt.Sprintf("heartbeat %d of %d sent back to back got no response (responses per request: %v)", k+1, n, got)})
+		} else if c > 1 {
+			fs = append(fs, vsched.Finding{Sig: "request-answered-twice:ingress", What: fmt.Sprintf("heartbeat %d of %d sent back to back got %d responses (responses per request: %v)", k+1, n, c, got)})
+		}
+	}
+	x.V["outcome"] = fmt.Sprint(l)
+	return fs
 }
